@@ -238,7 +238,9 @@ def pmap(fn_module, fn_name, items, initargs=(), jobs=None, chunksize=1, force_p
     exists.  Results come back in input order."""
     items = list(items)
     jobs = jobs or ncpu()
-    if (jobs <= 1 or len(items) <= 1) and not force_pool:
+    if jobs <= 1 and not force_pool:
+        # explicit single-process mode (VERIF_JOBS=1, debugging).  A single ITEM is no reason to run library code inside the
+        # parent: worlds leave threads and patched modules behind, and every later pool is forked from this process
         _pool_init(fn_module, fn_name, initargs, pin=False)
         return _drop_crashes([_pool_call(a) for a in items])
     import concurrent.futures as cf
